@@ -268,7 +268,7 @@ func runC08(h kit.History) kit.Result {
 			}
 			want = onParent
 		}
-		var commitActions, earlyActions, derivedActions atomic.Int32
+		var commitActions, earlyActions, derivedActions, systemActions atomic.Int32
 		rec.Committed.Store(false)
 		rec.Drain()
 		out := kit.RunTxHooks(w, m, tx, func(ctx boltz.MutateContext) {
@@ -282,6 +282,8 @@ func runC08(h kit.History) kit.Result {
 			// a commit action registered through it runs like any other
 			derived := ctx.UpdateContext(func(c context.Context) context.Context { return context.WithValue(c, c08CtxKey{}, "v") })
 			derived.AddCommitAction(func() { derivedActions.Add(1) })
+			// ... and so does one registered through a system context derived from it (twice over)
+			ctx.GetSystemContext().GetSystemContext().AddCommitAction(func() { systemActions.Add(1) })
 		})
 		if out.Violation != nil {
 			res.Err = fmt.Errorf("transaction %d: %v\nhistory:\n%s", i, out.Violation, h)
@@ -299,7 +301,7 @@ func runC08(h kit.History) kit.Result {
 		// commit actions run on their own goroutine: wait for the latch (10 s ceiling)
 		if out.Committed {
 			latch := time.Now().Add(10 * time.Second)
-			for (commitActions.Load() == 0 || earlyActions.Load() == 0 && !tx.UsesNilCtx() || derivedActions.Load() == 0) && time.Now().Before(latch) {
+			for (commitActions.Load() == 0 || earlyActions.Load() == 0 && !tx.UsesNilCtx() || derivedActions.Load() == 0 || systemActions.Load() == 0) && time.Now().Before(latch) {
 				time.Sleep(50 * time.Microsecond)
 			}
 		}
@@ -390,6 +392,10 @@ func runC08(h kit.History) kit.Result {
 		}
 		if n := derivedActions.Load(); !tx.Batch && n != wantActions || tx.Batch && (out.Committed && n < 1 || !out.Committed && n != 0) {
 			res.Err = fmt.Errorf("%s: the commit action registered through a context derived with UpdateContext ran %d times (committed=%v)\nhistory:\n%s", label, n, out.Committed, h)
+			return res
+		}
+		if n := systemActions.Load(); !tx.Batch && n != wantActions || tx.Batch && (out.Committed && n < 1 || !out.Committed && n != 0) {
+			res.Err = fmt.Errorf("%s: the commit action registered through a derived system context ran %d times (committed=%v)\nhistory:\n%s", label, n, out.Committed, h)
 			return res
 		}
 		if tx.UsesNilCtx() {
